@@ -26,4 +26,81 @@ def IsIso (g1 g2 : IsoGraph) : Prop := ∃ μ, IsIsoVia μ g1 g2
 adjacency (true of everything `_make_mrs_isograph` builds: `mkIsoGraph_wf`) -/
 def WFAdj (g : IsoGraph) : Prop := (dkeys g).Nodup ∧ ∀ p ∈ g, (dkeys p.2).Nodup
 
+/-! ## the named input-space hypotheses of the encoding theorems (definitions only; the driver
+evaluates their Boolean forms on every generated case) -/
+
+abbrev Pos := Node × Option Node
+
+/-- node-name hygiene of the construction: predication ids are distinct strings and no label is
+also a predication id (handles vs. intrinsic variables / `q…` / `_…`) -/
+def rowsOK (m : MRS) : Bool :=
+  decide ((m.preds.map (fun p => vstr p.1)).Nodup)
+  && m.preds.all (fun p => m.preds.all (fun q => vstr p.2.label != vstr q.1))
+
+/-- the units of the construction: one predication, one handle constraint, one individual constraint -/
+inductive Block where
+  | ep (p : Pred)
+  | hc (h : HCons)
+  | ic (c : ICons)
+
+def blocks (m : MRS) : List Block := m.preds.map .ep ++ m.hcons.map .hc ++ m.icons.map .ic
+
+/-- the positions a unit writes (they depend neither on `properties` nor on the variable properties) -/
+def blockPos : Block → List Pos
+  | .ep p => (vstr p.2.label, some (vstr p.1)) :: (vstr p.1, none)
+              :: p.2.args.map (fun a => ((vstr p.1, some (vstr a.2)) : Pos))
+  | .hc h => [(vstr h.hi, some (vstr h.lo))]
+  | .ic c => [(vstr c.left, some (vstr c.right))]
+
+/-- **no parallel constraints**: two different units never write the same (node, target) position —
+no handle / individual constraint between a pair of nodes already joined by an argument, a scope
+edge or another constraint, no two predications on one node -/
+def NoParallel (m : MRS) : Prop :=
+  (blocks m).Pairwise (fun a b => ∀ x ∈ blockPos a, ∀ y ∈ blockPos b, x ≠ y)
+
+/-- the predication ids `EP.__init__` assigns are already distinct, so `_uniquify_ids` changes nothing
+(every predication has its own ARG0 up to quantifiers, no two quantifiers bind variables with the
+same number) -/
+def SimpleIds (m : MRS) : Prop := (m.rels.map EP.baseId).Nodup
+
+def renEP (σ : Var → Var) (e : EP) : EP :=
+  { e with label := σ e.label, args := e.args.map (fun a => (a.1, σ a.2)) }
+
+/-- the MRS with every variable `v` replaced by `σ v` -/
+def renMRS (σ : Var → Var) (m : MRS) : MRS :=
+  { top := m.top.map σ, index := m.index.map σ, rels := m.rels.map (renEP σ),
+    hcons := m.hcons.map (fun h => ⟨σ h.hi, h.rel, σ h.lo⟩),
+    icons := m.icons.map (fun c => ⟨σ c.left, c.rel, σ c.right⟩),
+    variables := m.variables.map (fun vp => (σ vp.1, vp.2)) }
+
+/-- every variable occurrence, before `_fill_variables` removes duplicates -/
+def rawVars (m : MRS) : List Var :=
+  m.variables.map (·.1) ++ m.top.toList ++ m.index.toList
+    ++ m.rels.flatMap (fun e => e.label :: e.args.map (·.2))
+    ++ m.hcons.flatMap (fun h => [h.lo, h.hi])
+    ++ m.icons.flatMap (fun c => [c.left, c.right])
+
+/-- node-name hygiene: distinct variables have distinct names (no digits in sorts), distinct
+predications have distinct ids (`SimpleIds`), a predication id is a variable name only when it is
+the predication's own intrinsic variable, and no label is a predication id -/
+structure NamesOK (m : MRS) : Prop where
+  vars : ((filledVars m).map vstr).Nodup
+  ids : (m.rels.map (fun e => vstr e.baseId)).Nodup
+  idVar : ∀ e ∈ m.rels, vstr e.baseId ∈ (filledVars m).map vstr → e.isQuantifier = false ∧ e.iv.isSome = true
+  lblId : ∀ e ∈ m.rels, ∀ e' ∈ m.rels, vstr e.label ≠ vstr e'.baseId
+
+instance (m : MRS) : Decidable (NoParallel m) := by unfold NoParallel; exact inferInstance
+instance (m : MRS) : Decidable (SimpleIds m) := by unfold SimpleIds; exact inferInstance
+
+/-- Boolean form of `NamesOK` -/
+def namesOKb (m : MRS) : Bool :=
+  decide (((filledVars m).map vstr).Nodup)
+  && decide ((m.rels.map (fun e => vstr e.baseId)).Nodup)
+  && m.rels.all (fun e => !((filledVars m).map vstr).contains (vstr e.baseId)
+        || (!e.isQuantifier && e.iv.isSome))
+  && m.rels.all (fun e => m.rels.all (fun e' => vstr e.label != vstr e'.baseId))
+
+/-- all hypotheses of `isIsomorphic_renamed` / `_reordered` / `faithful_labels_partial` on one MRS -/
+def encodingHyps (m : MRS) : Bool := namesOKb m && decide (NoParallel m) && rowsOK m
+
 end Verif.C06
